@@ -21,9 +21,11 @@ func (propC20) ID() string { return "C20" }
 const c20Handles = 4
 const c20Slices = 2
 
-var c20Hosts = []string{"int", "int32", "uint", "uint32", "int64", "float32", "float64", "bool", "string", "time", "duration", "array", "variant", "nil", "struct", "slice", "map", "goarray", "structslice", "ptr"}
+var c20Hosts = []string{"int", "int32", "uint", "uint32", "int64", "float32", "float64", "bool", "string", "time", "duration", "array", "variant", "nil", "struct", "slice", "map", "goarray", "structslice", "ptr", "ifacestruct", "func"}
 
 type c20Struct struct{ A int }
+
+func c20Func(x int) int { return x + 1 }
 
 func c20Scalar(r *Rand) Val {
 	switch r.Intn(9) {
@@ -311,6 +313,11 @@ func (propC20) Exec(p *Plan, x *Ctx) *Outcome {
 			case "ptr":
 				s := &c20Struct{A: int(i64 % 3)}
 				return hostRes{val: s, model: Val{T: "Object", S: fmt.Sprintf("%T:%v", s, s)}, share: -1, ok: true}
+			case "ifacestruct": // a struct type that is comparable statically but holds an uncomparable value
+				s := struct{ A any }{[]int{int(i64 % 3)}}
+				return hostRes{val: s, model: Val{T: "Object", S: fmt.Sprintf("%T:%v", s, s)}, share: -1, ok: true}
+			case "func":
+				return hostRes{val: c20Func, model: Val{T: "Object", S: "func(int) int:c20Func"}, share: -1, ok: true}
 			}
 			return hostRes{}
 		}
